@@ -23,7 +23,7 @@ import sys
 import tempfile
 import time
 from concurrent.futures import ThreadPoolExecutor
-from dataclasses import dataclass, field
+from dataclasses import dataclass, field, replace
 from pathlib import Path
 
 VERIF = Path(__file__).resolve().parent.parent
@@ -45,6 +45,8 @@ class Obl:
     params: dict = field(default_factory=dict)    # for kind 'py'
     tiers: tuple = ("quick", "thorough")
     twin: bool = True             # reachability twin (xh)
+    quick_pre: str | None = None  # extra precondition (tighter bounds) applied in the quick tier only
+    timeout_thorough: int | None = None
     replay: str | None = None     # "module:func" real-API replay taking the cex
     classify: str | None = None   # "module:func" cex -> finding key suffix
 
@@ -239,20 +241,23 @@ def write_replay(prop: str, obl: Obl, body: str, harness_path: Path | None):
     return p
 
 
-def run_obligation(prop: str, obl: Obl, workroot: Path) -> Verdict:
+def run_obligation(prop: str, obl: Obl, workroot: Path, tier: str = "quick") -> Verdict:
+    tpre = [obl.quick_pre] if (tier == "quick" and obl.quick_pre) else []
+    if tier == "thorough" and obl.timeout_thorough:
+        obl = replace(obl, timeout=obl.timeout_thorough)
     wd = Path(tempfile.mkdtemp(prefix=re.sub(r"\W", "_", obl.id) + "_", dir=workroot))
     v = Verdict(obl, "error")
     try:
         if obl.kind == "xh":
             excl = [k["exclude_pre"] for k in known_for(obl.id) if k.get("exclude_pre")]
-            path0, l_main, l_twin = prepare_xh_file(obl.module, obl.func, wd, [])
+            path0, l_main, l_twin = prepare_xh_file(obl.module, obl.func, wd, tpre)
             st, detail, cex, dt = run_crosshair(path0, l_main, obl.timeout, wd)
             v.status, v.detail, v.cex, v.solver_s, v.queries = st, detail, cex, dt, 1
             if st == "cex":
                 _triage_xh(prop, obl, v, path0, wd)
                 if v.known and excl:
                     # re-run with the known input class excluded: anything else must hold
-                    path1, l1, _ = prepare_xh_file(obl.module, obl.func, wd, excl)
+                    path1, l1, _ = prepare_xh_file(obl.module, obl.func, wd, tpre + excl)
                     st2, detail2, cex2, dt2 = run_crosshair(path1, l1, obl.timeout, wd)
                     v.solver_s += dt2
                     v.queries += 1
@@ -358,7 +363,7 @@ def run_property(prop: str, obls: list[Obl], tier: str, meta: dict) -> int:
     workroot = Path(tempfile.mkdtemp(prefix=f"vt_{prop}_"))
     try:
         with ThreadPoolExecutor(NCPU) as ex:
-            verdicts = list(ex.map(lambda o: run_obligation(prop, o, workroot), obls))
+            verdicts = list(ex.map(lambda o: run_obligation(prop, o, workroot, tier), obls))
     finally:
         shutil.rmtree(workroot, ignore_errors=True)
     code = 0
@@ -398,7 +403,7 @@ def write_evidence(prop, tier, seed, verdicts, meta, wall, n_viol):
     samples = []
     for v in verdicts[:400]:
         samples.append({"obligation": v.obl.id, "kind": v.obl.kind, "harness": f"{v.obl.module}.{v.obl.func}",
-                        "encodes": v.obl.encodes, "bounds": v.obl.bounds, "claim": v.obl.desc, "verdict": v.status,
+                        "encodes": v.obl.encodes, "bounds": v.obl.bounds + (f" [quick tier additionally: {v.obl.quick_pre}]" if tier == "quick" and v.obl.quick_pre else ""), "claim": v.obl.desc, "verdict": v.status,
                         "solver_s": round(v.solver_s, 2), "queries": v.queries, "reachability_twin_violated": v.twin_ok,
                         **({"cex": v.cex, "reproduced": v.reproduced, "known": v.known, "key": v.finding_key} if v.cex else {}),
                         **({"detail": v.detail[-400:]} if v.status not in ("holds",) else {}),
